@@ -1279,6 +1279,8 @@ def snapshot(W, nd):
 def cap_ms(W, depth):
     if W.tier == "thorough" and depth <= 1:
         return 45.0
+    if depth >= 3:
+        return 1.0
     return 3.2
 
 
@@ -1723,6 +1725,14 @@ def apply(W, ev, check):
 LEVELS = {"quick": (2, 1), "thorough": (3, 1, 0)}  # alphabet level per depth; len = max depth
 
 
+def levels(M, tier):
+    """representatives and wrappers get the full depth; the remaining catalogue (thorough only) stops at depth 2"""
+    lv = LEVELS[tier]
+    if tier == "thorough" and M.name not in REPS and not M.wrapper:
+        return lv[:2]
+    return lv
+
+
 def setattr_events(W, i):
     nd = W.nodes[i]
     M, N = nd.M, nd.model
@@ -1748,10 +1758,10 @@ def setattr_events(W, i):
 
 def enabled_events(W, group):
     depth = len(W.hist)
-    levels = LEVELS[W.tier]
-    if depth >= len(levels):
+    lv = levels(W.M, W.tier)
+    if depth >= len(lv):
         return []
-    lvl = levels[depth]
+    lvl = lv[depth]
     M = W.M
     evs = []
     for i in range(len(W.nodes)):
@@ -1777,7 +1787,7 @@ def event_label(ev):
 
 
 def groups_of(M, seed, tier):
-    lvl = LEVELS[tier][0]
+    lvl = levels(M, tier)[0]
     gs = []
     for elvl, g, _o, _r, _t in events_of(M, seed):
         if elvl <= lvl and g not in gs:
@@ -1852,7 +1862,7 @@ def work(task):
         W.counts = {}
 
     fns = make_fns(name, seed, tier, group, on_step, digests)
-    res = explore.bfs(*fns, max_depth=len(LEVELS[tier]), event_label=event_label)
+    res = explore.bfs(*fns, max_depth=len(levels(M, tier)), event_label=event_label)
     for d in digests:
         acc.cls("state", name, d)
     acc.count("transitions", res.transitions)
